@@ -44,8 +44,8 @@ _TAGS = ['TagA', 'TagB', 'TagC', 'TagX']
 def strategy_(draw, tier):
   recipe = draw(dags.dag(
       max_nodes=10, min_nodes=3, bts=('Config', 'Config', 'Partial'), tags=True,
-      kinds=['B', 'B', 'list', 'list', 'tuple', 'dict', 'dict', 'nt', 'Bpos', 'Bmut'],
-      fns=['things:f2', 'things:h1', 'things:Base', 'things:LeafCls'], root_kinds=['B', 'Bpos'],
+      kinds=['B', 'B', 'list', 'list', 'tuple', 'dict', 'dict', 'nt', 'Bpos', 'Bmut', 'Bpo', 'set', 'holder'],
+      fns=['things:f2', 'things:h1', 'things:Base', 'things:LeafCls'], root_kinds=['B', 'Bpos', 'Bpo'],
       p_alias=0.8, allow_copyof=False))
   op = draw(st.sampled_from(DEEP + SHALLOW))
   edits = []
@@ -91,7 +91,7 @@ def mutable_objects(root):
       out[id(v.__argument_history__)] = v.__argument_history__
       for l in v.__argument_history__.values():
         out[id(l)] = l
-    elif isinstance(v, (list, dict)):
+    elif isinstance(v, (list, dict, set, bytearray, things.DictObj)):
       out[id(v)] = v
   return out
 
@@ -161,12 +161,16 @@ def apply_edit(target_root, e, deep):
   elif kind == 'mutate':
     if not deep:
       return False, 'skip'
-    conts = [v for _, v in C.walk(target_root) if isinstance(v, (list, dict)) and not C.is_leaf(v)]
+    conts = [v for _, v in C.walk(target_root) if isinstance(v, (list, dict, set, things.DictObj))]
     if not conts:
       return False, 'no-container'
     c = conts[e['node'] % len(conts)]
     if isinstance(c, list):
       c.append(val)
+    elif isinstance(c, set):
+      c.add('mutated')
+    elif isinstance(c, things.DictObj):
+      c.mutated = val
     else:
       c['mutated'] = val
   return tagged, kind
